@@ -574,7 +574,7 @@ def spec_cmap12(d, c):
         shims=['struct', 'array'],
         quick=[dict(fmt=4, shape='run12', k=k) for k in (0, 3, 6)] + [dict(fmt=4, shape='run5', k=2), dict(fmt=4, shape='two-runs', k=1), dict(fmt=4, shape='two-runs', k=5), dict(fmt=4, shape='scattered', k=2), dict(fmt=4, shape='top', k=1),
                                                                      dict(fmt=12, shape='astral', k=3), dict(fmt=12, shape='run5', k=2),
-                                                                     dict(fmt=2, shape='dbcs', k=2), dict(fmt=2, shape='dbcs-only', k=1)],
+                                                                     dict(fmt=2, shape='dbcs', k=2), dict(fmt=2, shape='dbcs-only', k=1), dict(fmt=2, shape='sbcs', k=1)],
         thorough=[dict(fmt=4, shape=s, k=k) for s in ('run12', 'run5', 'two-runs', 'scattered', 'top', 'run20') for k in (0, 1, 2, 3, 5, 6, 9, 11) if k < len(CMAP_SHAPES[s])]
         + [dict(fmt=12, shape=s, k=k) for s in ('astral', 'run5', 'two-runs', 'scattered') for k in (0, 1, 2, 3)]
         + [dict(fmt=2, shape=s, k=k) for s in ('dbcs', 'dbcs-only', 'sbcs') for k in (0, 1, 2, 3)], conc_cap=80, max_paths=100000)
